@@ -2,7 +2,7 @@
    Each is closed by `exact <lemma>` and followed by Print Assumptions.
    `compress` / `decompress` stand for the five compression libraries; the only thing asked
    of them is codec_ok (decompress after compress is the identity), where it is needed. *)
-From V Require Import C17_Spec C17_Proofs.
+From V Require Import C17_Spec C17_Proofs C17_ProofsReq.
 Open Scope N_scope.
 
 (* ---- the body encoders ---- *)
@@ -98,17 +98,54 @@ Proof. exact recorder_proof. Qed.
 Print Assumptions recorder_every_rpc.
 
 (* ---- raw request ---- *)
+(* for ALL raw requests whose URI is empty or starts with '/', '?' or '#' (anything else runs into the
+   authority, see request_refused) and can be parsed at all: the request handed to the transport has the
+   given method ("" = GET), exactly the encoded body, for every header name the listed values in order, for
+   every query name the URI's own (decoded) values, then the raw ones, then the encoded ones (base64 / plain of
+   the compressed contents), and the request target - the text on the HTTP/1.1 request line and in :path - is
+   the path as written (path_on_wire: byte for byte when it is made of path characters and well-formed
+   escapes - percent-escapes are NOT decoded, hex digits keep their case -, "/" when empty) followed by the
+   query: untouched when no parameters are listed, else the merged multimap in sorted key=value&... form.
+   The fragment is never sent. *)
 Theorem request_exact : forall compress orig r,
   token (q_verb r) -> Forall (fun e => contents_ok (e_value e)) (q_encq r) ->
-  exists s, raw_request compress orig r = Some s /\
+  uri_class (q_uri r) (has_params r) = UOrigin -> uri_wellformed (q_uri r) = true ->
+  exists s, raw_request compress orig r = RSent s /\
     s_method s = match q_verb r with [] => bs "GET" | v => v end /\
-    s_path s = fst (split_first 63 (q_uri r)) /\
     s_body s = fst (write_body compress (q_body r)) /\
     (forall k, hm_vals k (s_headers s) = values_of k (q_headers r)) /\
     (forall k, hm_vals k (s_query s) =
-               hm_vals k (uri_query (q_uri r)) ++ qvalues_of k (q_rawq r) ++ enc_values_of compress k (q_encq r)).
+               hm_vals k (uri_query (q_uri r)) ++ qvalues_of k (q_rawq r) ++ enc_values_of compress k (q_encq r)) /\
+    s_target s = path_on_wire (uri_path (q_uri r)) ++
+                 query_on_wire (q_uri r) (if has_params r then Some (s_query s) else None).
 Proof. exact request_exact_proof. Qed.
 Print Assumptions request_exact.
+
+(* the given path exactly: no escape decoded (%2F stays %2F, %2f stays %2f), '+' and ';' untouched *)
+Theorem request_path_verbatim : forall p, valid_encoded EPath p = true -> p <> [] -> path_on_wire p = p.
+Proof. exact path_verbatim_proof. Qed.
+Print Assumptions request_path_verbatim.
+
+(* any other path is decoded and re-encoded by net/url; what it decodes to stays the same *)
+Theorem request_path_meaning : forall p t,
+  Forall (fun c => c < 256) p -> unescape false p = Some t -> unescape false (path_on_wire p) = Some (or_slash t).
+Proof. exact path_meaning_proof. Qed.
+Print Assumptions request_path_meaning.
+
+(* whatever the names and values of the parameters are, the encoded query consists of unreserved
+   characters, '%', '+', '=', '&' (valid_char EQuery excludes '#', '?', space, control and non-ASCII bytes) *)
+Theorem request_query_chars : forall m x, In x (values_encode m) -> valid_char EQuery x = true.
+Proof. exact values_encode_chars. Qed.
+Print Assumptions request_query_chars.
+
+(* a URI that does not start with '/', '?' or '#', has a control byte before the fragment or a '%' not
+   followed by two hex digits in path or fragment: RoundTrip fails, nothing is sent to the given server *)
+Theorem request_refused : forall compress orig r,
+  uri_class (q_uri r) (has_params r) = UGlued \/
+  (uri_class (q_uri r) (has_params r) = UOrigin /\ uri_wellformed (q_uri r) = false) ->
+  raw_request compress orig r = RError.
+Proof. exact request_refused_proof. Qed.
+Print Assumptions request_refused.
 
 Theorem request_ignores_orig : forall compress o1 o2 r, raw_request compress o1 r = raw_request compress o2 r.
 Proof. exact request_ignores_orig_proof. Qed.
@@ -156,10 +193,33 @@ Example ex_handler_wins :
   option_map (fun p => (fst (committed (fst p)), iw_body (fst p), snd p))
     (serve toy_c [] [OWrite (bs "handler"); OSetRaw ex_raw]) = Some (200, bs "handler", [7; 0]%Z).
 Proof. vm_compute. reflexivity. Qed.
+(* the raw-request hypotheses are inhabited; an escaped slash, lower-case hex, '+' and ';' survive the merge
+   of query parameters; the URI's own query comes first for a name, keys are sorted *)
+Definition ex_req : rawreq :=
+  mk_rawreq [] (bs "/some.pkg%2FService/a+b;c%2f?q=0&z=%2F#frag") []
+            [mk_header (bs "q") [bs "1"]; mk_header (bs "encoding") [bs "a b"]]
+            [mk_encq (bs "q") (Some (mk_contents (DBinary [255]) 1)) true]
+            (BUnary (Some (mk_contents (DText (bs "b")) 0))).
+Example ex_req_hyps : uri_class (q_uri ex_req) (has_params ex_req) = UOrigin /\ uri_wellformed (q_uri ex_req) = true /\
+                      valid_encoded EPath (uri_path (q_uri ex_req)) = true.
+Proof. vm_compute. repeat split. Qed.
 Example ex_request :
-  option_map (fun s => (s_method s, s_path s, hm_vals (bs "q") (s_query s), s_body s))
-    (raw_request toy_c live_orig
-       (mk_rawreq [] (bs "/p?q=0") [] [mk_header (bs "q") [bs "1"]] [mk_encq (bs "q") (Some (mk_contents (DBinary [255]) 1)) true]
-                  (BUnary (Some (mk_contents (DText (bs "b")) 0))))) =
-  Some (bs "GET", bs "/p", [bs "0"; bs "1"; bs "_w=="], bs "b").
+  match raw_request toy_c live_orig ex_req with
+  | RSent s => Some (s_method s, s_target s, hm_vals (bs "q") (s_query s), s_body s)
+  | _ => None
+  end = Some (bs "GET", bs "/some.pkg%2FService/a+b;c%2f?encoding=a+b&q=0&q=1&q=_w%3D%3D&z=%2F", [bs "0"; bs "1"; bs "_w=="], bs "b").
 Proof. vm_compute. reflexivity. Qed.
+(* without parameters the URI's query is not touched *)
+Example ex_request_untouched :
+  match raw_request toy_c live_orig (mk_rawreq (bs "POST") (bs "/p%2Fq?b=%2f&a=x+y&&#f") [] [] [] BNone) with
+  | RSent s => Some (s_target s) | _ => None end = Some (bs "/p%2Fq?b=%2f&a=x+y&&").
+Proof. vm_compute. reflexivity. Qed.
+(* a path with a character that cannot stand in a path is re-encoded as a whole *)
+Example ex_request_reencoded :
+  path_on_wire (bs "/a b%2Fc") = bs "/a%20b/c" /\ valid_encoded EPath (bs "/a b%2Fc") = false.
+Proof. vm_compute. split; reflexivity. Qed.
+Example ex_request_refused :
+  raw_request toy_c live_orig (mk_rawreq (bs "GET") (bs "/a%zz") [] [] [] BNone) = RError /\
+  raw_request toy_c live_orig (mk_rawreq (bs "GET") (bs "a/b") [] [] [] BNone) = RError /\
+  uri_wellformed (bs "/a%zz") = false /\ uri_class (bs "a/b") false = UGlued.
+Proof. vm_compute. repeat split. Qed.
